@@ -24,6 +24,16 @@ Theorem C20_every_pick_of_a_trial_within_limits :
 Proof. intros lims cfg rematch ch ls idx. exact (select_picks_within_limits lims cfg rematch ch ls idx). Qed.
 Print Assumptions C20_every_pick_of_a_trial_within_limits.
 
+(* per-role form for class-keyed limits: own configuration field, own slot *)
+Theorem C20_class_limit_per_role :
+  forall lims cfg rematch (ch : chooser) g head ln cn il q b g',
+  first_match rematch lims ln = None ->
+  get_quantizer lims cfg rematch ch g head ln cn il = (RSome q b, g') ->
+  exists slots lm, assoc cn lims = Some slots /\ slot slots (field_index (field_of_head il head)) = Some lm /\
+    from_field cfg (field_of_head il head) q b /\ obeys lm q b /\ g' = g.
+Proof. exact get_quantizer_class_limit_per_role. Qed.
+Print Assumptions C20_class_limit_per_role.
+
 (* layers outside the limits stay unquantized *)
 Theorem C20_layer_outside_limits_gets_no_quantizer :
   forall lims cfg rematch (ch : chooser) g head ln cn il,
